@@ -75,7 +75,10 @@ class _LogCapture(logging.Handler):
 
 
 class World:
-    """One configured bardolph container + simulated LAN."""
+    """One configured bardolph container + simulated LAN.  The injection
+    container is process-wide, so only the most recently built World is live;
+    `World.current` says which one that is."""
+    current = None
 
     def __init__(self, specs=(), output='record', fault_plan=None,
                  pack_messages=False, extra_settings=None, discover=True,
@@ -121,6 +124,7 @@ class World:
             device.log_ordinals.clear()
             device.attempts.clear()
         machine_module.getch = lambda: '!'
+        World.current = self
 
     @staticmethod
     def _extend_runtime(extra_fns):
@@ -212,3 +216,15 @@ def normalise_trace(trace):
     """Drop bookkeeping events the properties say nothing about."""
     return [event for event in trace
             if event[0] not in ('reset', 'flush')]
+
+
+_shared = {}
+
+
+def shared_world(key, specs, **kwargs):
+    """A World reused across cases of one check, rebuilt whenever another
+    World has been created in this process since."""
+    world = _shared.get(key)
+    if world is None or World.current is not world:
+        world = _shared[key] = World(specs, **kwargs)
+    return world
